@@ -1,5 +1,6 @@
 #!/bin/bash
-# Build the Lean library from the files on disk (offline). Run once after a fresh restore.
+# Build every Lean module of the library from the files on disk (offline). Run once after a fresh restore.
 set -e
 cd "$(dirname "$0")/lean"
-lake build 2>&1 | tail -5
+mods=$(find LenaModel -name '*.lean' | sed 's/\.lean$//; s|/|.|g' | sort)
+./lb $mods 2>&1 | tail -5
